@@ -1,5 +1,6 @@
 """C11 — any input is either adjusted or refused with a located diagnostic, safely."""
 import concurrent.futures
+import random
 import glob as _glob
 import importlib.util
 import tempfile
@@ -1411,11 +1412,7 @@ def exec_oracle(ctx, corr, inputs):
     ctx.log(f"executable oracle: {len(uniq)} runs of sanitized gama-local in {time.time() - t0:.1f}s")
 
 
-def correspond(ctx, corr):
-    decorate_failures(ctx, corr)
-    d = ctx.build_gama(sanitize=True)
-    objs = sorted(_glob.glob(str(d / "CMakeFiles" / "libgama.dir" / "**" / "*.o"), recursive=True))
-    exe = ctx.build_cpp("c11_gkf", [ctx.verif / "harness" / "c11_gkf.cpp"], includes=[ctx.verif / "harness"], libs=objs + ["-lexpat"])
+def _gkf_streams(ctx, corr, exe):
     rng = ctx.rng
     docs = []
     corpus = ctx.verif / "corpus" / "C11"
@@ -1457,13 +1454,67 @@ def correspond(ctx, corr):
     n = run_literals(ctx, corr, exe)
     ctx.log(f"literal correspondence: {n} strings")
     run_cov(ctx, corr, exe)
-    exec_oracle(ctx, corr, exec_inputs(ctx))
-    bases = run_readers(ctx, corr)
-    for m in SUBS:
-        if m.__name__ == "c11_adjres":
-            m.run_stream(ctx, corr, bases)
-        else:
-            m.run_stream(ctx, corr)
+
+
+def correspond(ctx, corr):
+    """the streams are independent: each gets its own RNG (derived from the seed and the stream's name, so the documents do not
+    depend on scheduling) and its own Corr; they run side by side (they are subprocess-bound) and are merged in a fixed order"""
+    import copy
+    decorate_failures(ctx, corr)
+    d = ctx.build_gama(sanitize=True)          # all builds first, one after the other: the streams then hit the cache
+    objs = sorted(_glob.glob(str(d / "CMakeFiles" / "libgama.dir" / "**" / "*.o"), recursive=True))
+    exe = ctx.build_cpp("c11_gkf", [ctx.verif / "harness" / "c11_gkf.cpp"], includes=[ctx.verif / "harness"], libs=objs + ["-lexpat"])
+    readers_exe(ctx)
+    for hn in ("c11_adjres", "c11_dataparser"):
+        ctx.build_cpp(hn, [ctx.verif / "harness" / (hn + ".cpp")], includes=[ctx.verif / "harness"], libs=objs + ["-lexpat"])
+
+    def sub(name):
+        c = copy.copy(ctx)
+        c.rng = random.Random(f"C11-{ctx.seed}-{name}")
+        k = Corr()
+        decorate_failures(c, k)
+        return c, k
+    subs = {n: sub(n) for n in ("gkf", "exec", "readers", "adjres", "dataparser")}
+    adjres = next((m for m in SUBS if m.__name__ == "c11_adjres"), None)
+    dparser = next((m for m in SUBS if m.__name__ == "c11_dataparser"), None)
+
+    def job_gkf():
+        _gkf_streams(subs["gkf"][0], subs["gkf"][1], exe)
+
+    def job_exec():
+        exec_oracle(subs["exec"][0], subs["exec"][1], exec_inputs(subs["exec"][0]))
+
+    def job_readers():
+        bases = run_readers(*subs["readers"])
+        if adjres is not None:
+            adjres.run_stream(subs["adjres"][0], subs["adjres"][1], bases)
+
+    def job_dp():
+        if dparser is not None:
+            dparser.run_stream(*subs["dataparser"])
+    with concurrent.futures.ThreadPoolExecutor(max_workers=4) as ex:
+        futs = [ex.submit(j) for j in (job_gkf, job_exec, job_readers, job_dp)]
+        errs = []
+        for f in futs:
+            try:
+                f.result()
+            except Exception as e:      # report the first one after all streams finished
+                errs.append(e)
+    for n in ("gkf", "exec", "readers", "adjres", "dataparser"):
+        k = subs[n][1]
+        corr.evaluations += k.evaluations
+        corr.nontrivial |= k.nontrivial
+        corr.samples += [x for x in k.samples if len(corr.samples) < 5]
+        corr.disagreements += k.disagreements
+        corr.failures += k.failures
+        for key, v in k.stats.items():
+            if isinstance(v, (int, float)) and isinstance(corr.stats.get(key, 0), (int, float)) and not key.startswith("max_"):
+                corr.stats[key] = corr.stats.get(key, 0) + v
+            else:
+                corr.stats[key] = v
+        corr.inconclusive += k.inconclusive
+    if errs:
+        raise errs[0]
     if corr.stats.get("outcome_parser", 0) < 20:
         corr.inconclusive.append("fewer than 20 refused documents in the event correspondence")
     if corr.stats.get("outcome_ok", 0) < 20:
